@@ -39,7 +39,9 @@ func (v *VerifPool) Commit(blk, committer, proposer uint32, hash common.Uint256,
 	return v.Pool.newBlockCommitment(&blockCommitMsg{Committer: committer, BlockProposer: proposer, BlockNum: blk, CommitBlockHash: hash, CommitForEmpty: forEmpty, EndorsersSig: endorsers, CommitterSig: sig})
 }
 
-func (v *VerifPool) EndorseDone(blk uint32) (uint32, bool, bool) { return v.Pool.endorseDone(blk, v.Srv.config.C) }
+func (v *VerifPool) EndorseDone(blk uint32) (uint32, bool, bool) {
+	return v.Pool.endorseDone(blk, v.Srv.config.C)
+}
 func (v *VerifPool) CommitDone(blk uint32) (uint32, bool, bool) {
 	return v.Pool.commitDone(blk, v.Srv.config.C, v.Srv.config.N)
 }
